@@ -19,6 +19,7 @@ CONSTANTS
   Record = FALSE
   History = TRUE
   Depth = 0
+  Edges = FALSE
   Deviations = {"OversizeWedge"}
 INVARIANTS TypeOK P_C11_Slices P_C11_Bounded P_C11_Conservation P_C11_NoBufferFull P_C11_CanReceive P_C11_History
 CONSTRAINT Track
